@@ -92,7 +92,12 @@ def run(sh):
     rng = gen.rng_for(sh.seed, PROP, sh.shard)
     K = 22 if sh.tier == 'quick' else 1000
     for it in range(K):
-        case = gen.gen_pipeline_case(rng)
+        if rng.random() < 0.2:
+            # slow rhythms (band edge below 1 Hz) with the amplitude method: "so many cycles" and "so many seconds" differ most here
+            case = gen.gen_pipeline_case(rng, families=['bursty', 'bursty', 'oscnoise'], methods=('amp',), low=1.0)
+            sh.note('slow_rhythm_amplitude_method')
+        else:
+            case = gen.gen_pipeline_case(rng)
         case['a'] = 2.0 ** float(rng.integers(-10, 11) if rng.random() < 0.5 else rng.integers(-60, 61))
         case['c'] = float(rng.choice([.25, .5, 2., 4.]))
         case['share_options'] = bool(rng.random() < 0.5)
